@@ -23,12 +23,80 @@ func checkC01(w *World, r *Report) {
 	r.Rule("R01.3", "pipe wiring and copy loops", 2)
 	r.Rule("R01.4", "multiplexer configuration admissible", 2)
 	r.Rule("R01.5", "websocket Write splits without gaps or overlaps", 1)
+	r.Rule("R01.6", "Write methods report the full count on success", 4)
 
 	c01Reads(w, r)
 	c01ReadAhead(w, r)
 	ruleR01_3(w, r)
 	c01Smux(w, r)
 	c01WsWrite(w, r)
+	c01WriteCounts(w, r)
+}
+
+// c01WriteCounts: R01.6 — every Write([]byte) (int, error) method of the
+// module reports, on success, either len() of the buffer exactly as it was
+// passed in or a count obtained from the writer it delegates to. A Write that
+// succeeds with a smaller count makes io.Copy / io.MultiWriter abort the stream
+// with ErrShortWrite.
+func c01WriteCounts(w *World, r *Report) {
+	var fns []*ssa.Function
+	for fn := range allModuleFuncs(w, w.SSA()) {
+		obj := fnObj(fn)
+		if obj == nil || obj.Name() != "Write" {
+			continue
+		}
+		sig := obj.Type().(*types.Signature)
+		if sig.Recv() == nil || sig.Params().Len() != 1 || sig.Results().Len() != 2 {
+			continue
+		}
+		if sl, ok := sig.Params().At(0).Type().(*types.Slice); !ok || !types.Identical(sl.Elem(), types.Typ[types.Byte]) {
+			continue
+		}
+		fns = append(fns, fn)
+	}
+	sort.Slice(fns, func(i, j int) bool { return fns[i].Pos() < fns[j].Pos() })
+	for _, fn := range fns {
+		key := "method:" + ssaFuncKey(fn) + "|count"
+		p := fn.Params[1]
+		bad := ""
+		n := 0
+		enumPaths(fn, nil, nil, nil, func(e pathExit) {
+			ret, ok := e.Last.(*ssa.Return)
+			if !ok || len(ret.Results) != 2 {
+				return
+			}
+			errv := e.State.Resolve(ret.Results[1])
+			if isNil, known := e.State.NilKnown(errv); known && !isNil {
+				return
+			}
+			if !isConstNil(errv) {
+				// delegated error: the count comes from the same call — accept
+				return
+			}
+			n++
+			cv := e.State.Resolve(ret.Results[0])
+			if isLenOf(cv, p) {
+				return
+			}
+			for _, root := range provenance(cv, provOpts{}) {
+				root = e.State.Resolve(root)
+				if isLenOf(root, p) {
+					return
+				}
+				if ex, ok := root.(*ssa.Extract); ok && ex.Index == 0 {
+					if _, isCall := ex.Tuple.(*ssa.Call); isCall {
+						return
+					}
+				}
+			}
+			bad = fmt.Sprintf("%s: on success the count reported is not len() of the caller's buffer (nor a delegated writer's count): %s", w.Pos(ret.Pos()), cv.String())
+		})
+		if n == 0 {
+			r.Hold("R01.6", key, w.Pos(fn.Pos()), "delegates count and error to an inner writer")
+			continue
+		}
+		r.Check(bad == "", "R01.6", key, w.Pos(fn.Pos()), fmt.Sprintf("%d success return(s) report len(p) of the buffer as passed", n), bad)
+	}
 }
 
 // isLenOf: v is len(x) for x == target.
